@@ -383,6 +383,25 @@ def check_unique(m, rule):
                 bad.append('release does not return the formerly managed pointer')
         if not [s for s in f.all_insts() if s.op == 'store' and resolve_addr(f, s.o[1]).steps == ('gp', 'ptr') and resolve_addr(f, s.o[1]).root == '$0' and const_int(s.o[0]) == 0]:
             bad.append('the object keeps managing the pointer after release')
+        # ... and its clear function: an empty unique pointer with a registered clear function runs that function again at the
+        # next reset / alloc, for memory that was handed to the caller (path-sensitive: every return, whatever out-parameters
+        # the caller passed)
+        def tr(ins, st, ps):
+            if ins.op == 'call' and ins.x.get('noreturn'):
+                return None
+            if ins.op == 'store':
+                a = resolve_addr(f, ins.o[1])
+                if a.root == '$0' and a.steps == ('clr', 'func'):
+                    return 'cleared' if (ins.o[0] == 'null' or const_int(ins.o[0]) == 0) else 'set'
+            return st
+        try:
+            res = typestate.run(f, 'kept', tr, limit=20000)
+            for r, ps in res.exits:
+                if ps.auto != 'cleared':
+                    bad.append('a path to the return at %s leaves the clear function registered in the released (now empty) pointer: the next reset '
+                               'or alloc runs it again for memory the caller already took over' % r.loc())
+        except typestate.Limit:
+            pass
         if bad:
             rule.violation('cstl_unique_ptr_release', '; '.join(bad), floc(m, f), {})
         else:
